@@ -1,8 +1,14 @@
+// C03 correspondence and oracle: the validation functions of /repo run under
+// recover() on byte strings built around each accept shape (then truncated /
+// extended / patched), against coq/model/C03_Script.v and C03_Validate.v.
+// Oracle: any panic.
 package main
 
 import (
 	"bytes"
 	"fmt"
+	"math/big"
+	"strings"
 
 	"github.com/elastos/Elastos.ELA/auxpow"
 	"github.com/elastos/Elastos.ELA/blockchain"
@@ -11,78 +17,611 @@ import (
 	"github.com/elastos/Elastos.ELA/core/contract/program"
 	"github.com/elastos/Elastos.ELA/crypto"
 
+	"verifharness/elaenv"
 	"verifharness/lib"
 )
 
-func try(name string, f func()) {
-	p, v := lib.Recover(f)
-	fmt.Printf("%-40s panicked=%v %v\n", name, p, v)
+type H struct {
+	run *lib.Run
+	rng *lib.Rng
+	st  *lib.Stats
+	sh  *lib.Shards
+	id  int
+	ks  []keypair
+}
+
+func (h *H) next() int { h.id++; return h.id }
+
+// outcome enum shared with coq/lib/C03_GoSem.v [outcome]
+func kindOf(v interface{}) int {
+	s := fmt.Sprint(v)
+	switch {
+	case strings.Contains(s, "index out of range"):
+		return 2
+	case strings.Contains(s, "slice bounds out of range"):
+		return 3
+	case strings.Contains(s, "divide by zero"):
+		return 4
+	}
+	return 9
+}
+
+// call runs f (returning accept?) under recover and maps to the enum; every
+// panic is reported to the property oracle under the call site's signature.
+func (h *H) call(site string, input interface{}, f func() bool) int {
+	var acc bool
+	p, v := lib.Recover(func() { acc = f() })
+	if p {
+		h.st.Fail(site+":panic", fmt.Sprintf("%s panicked: %v", site, v), input)
+		return kindOf(v)
+	}
+	if acc {
+		return 0
+	}
+	return 1
+}
+
+// callQuiet is call without the oracle report (for calls made outside the
+// guard their callers establish; the caller of callQuiet decides).
+func (h *H) callQuiet(f func() bool) int {
+	var acc bool
+	p, v := lib.Recover(func() { acc = f() })
+	if p {
+		return kindOf(v)
+	}
+	if acc {
+		return 0
+	}
+	return 1
+}
+
+func hx(b []byte) string { return common.BytesToHexString(b) }
+
+func zl(b []byte) string { return lib.CoqBytes(b) }
+
+func zll(bs [][]byte) string {
+	xs := make([]string, len(bs))
+	for i, b := range bs {
+		xs[i] = zl(b)
+	}
+	return lib.CoqList(xs)
+}
+
+func zpairs(ps [][2][]byte) string {
+	xs := make([]string, len(ps))
+	for i, p := range ps {
+		xs[i] = "(" + zl(p[0]) + ", " + zl(p[1]) + ")"
+	}
+	return lib.CoqList(xs)
+}
+
+func cp(b []byte) []byte { // exact-capacity copy, like ReadVarBytes
+	c := make([]byte, len(b))
+	copy(c, b)
+	return c
+}
+
+func cat(parts ...[]byte) []byte {
+	var r []byte
+	for _, p := range parts {
+		r = append(r, p...)
+	}
+	return cp(r)
+}
+
+// ---------------------------------------------------------------- keys
+
+type keypair struct {
+	priv []byte
+	pub  *crypto.PublicKey
+	enc  []byte // 33 bytes compressed
+}
+
+func (h *H) makeKeys(n int) {
+	for i := 0; i < n; i++ {
+		d := h.rng.Bytes(32)
+		d[0] &= 0x7f
+		d[31] |= 1
+		x, y := crypto.DefaultCurve.ScalarBaseMult(d)
+		pub := &crypto.PublicKey{X: x, Y: y}
+		enc, err := pub.EncodePoint(true)
+		if err != nil {
+			panic(err)
+		}
+		h.ks = append(h.ks, keypair{d, pub, enc})
+	}
+}
+
+func (h *H) sign(k int, data []byte) []byte {
+	s, err := crypto.Sign(h.ks[k].priv, data)
+	if err != nil {
+		panic(err)
+	}
+	return s
+}
+
+// ---------------------------------------------------------------- code shapes
+
+func (h *H) randKey() []byte {
+	if h.rng.Chance(70) {
+		return h.ks[h.rng.Intn(len(h.ks))].enc
+	}
+	k := h.rng.Bytes(33)
+	k[0] = byte(h.rng.PickU64(2, 3, 4, 5, 0))
+	return k
+}
+
+func stdCode(key []byte) []byte { return cat([]byte{33}, key, []byte{0xAC}) }
+func schCode(key []byte) []byte { return cat([]byte{0x51, 33}, key) }
+
+// numeric operand encodings used by IsMultiSig: PUSHk, (1,k), (2,hi,lo)
+func num(style int, k int) []byte {
+	switch style {
+	case 1:
+		return []byte{1, byte(k)}
+	case 2:
+		return []byte{2, byte(k >> 8), byte(k)}
+	}
+	return []byte{byte(0x50 + k)}
+}
+
+func msCode(mStyle, m int, keys [][]byte, nStyle, n int, last byte) []byte {
+	parts := [][]byte{num(mStyle, m)}
+	for _, k := range keys {
+		parts = append(parts, []byte{33}, k)
+	}
+	parts = append(parts, num(nStyle, n), []byte{last})
+	return cat(parts...)
+}
+
+// mutate returns the byte string itself and its neighbours: truncated by 1..4
+// at the end, extended by one element, one byte patched near a boundary.
+func (h *H) neighbours(b []byte) [][]byte {
+	out := [][]byte{cp(b)}
+	for d := 1; d <= 4 && d <= len(b); d++ {
+		out = append(out, cp(b[:len(b)-d]))
+	}
+	out = append(out, cat(b, []byte{byte(h.rng.U64())}), cat(b, []byte{0xAE}), cat(b, []byte{33}))
+	if len(b) > 0 {
+		for _, pos := range []int{0, 1, len(b) - 1, len(b) - 2, len(b) - 3} {
+			if pos >= 0 && pos < len(b) {
+				c := cp(b)
+				c[pos] = byte(h.rng.PickU64(0, 1, 2, 33, 0x50, 0x51, 0x52, 0x60, 0x61, 0xAC, 0xAE, 0xAF, 0xff, h.rng.U64()&0xff))
+				out = append(out, c)
+			}
+		}
+		out = append(out, cp(b[1:]))
+	}
+	return out
+}
+
+func (h *H) randomCode() []byte {
+	n := h.rng.Intn(6)
+	switch h.rng.Intn(8) {
+	case 0:
+		return stdCode(h.randKey())
+	case 1:
+		return schCode(h.randKey())
+	case 2:
+		return h.rng.Bytes(h.rng.Range(0, 80))
+	case 3: // only key-shaped runs
+		var parts [][]byte
+		parts = append(parts, num(h.rng.Intn(3), 1+h.rng.Intn(3)))
+		for i := 0; i < 1+n; i++ {
+			parts = append(parts, []byte{33}, h.randKey())
+		}
+		return cat(parts...)
+	}
+	var keys [][]byte
+	for i := 0; i < 1+n; i++ {
+		keys = append(keys, h.randKey())
+	}
+	m := 1 + h.rng.Intn(len(keys))
+	nn := len(keys)
+	if h.rng.Chance(15) {
+		nn += h.rng.Intn(3) - 1
+	}
+	if h.rng.Chance(10) {
+		m = nn + 1
+	}
+	last := byte(0xAE)
+	if h.rng.Chance(25) {
+		last = 0xAF
+	}
+	return msCode(h.rng.Intn(3), m, keys, h.rng.Intn(3), nn, last)
+}
+
+// ---------------------------------------------------------------- classifiers
+
+func (h *H) classify(code []byte) {
+	in := map[string]interface{}{"code": hx(code)}
+	o1 := h.call("contract.IsStandard", in, func() bool { return contract.IsStandard(code) })
+	o2 := h.call("contract.IsSchnorr", in, func() bool { return contract.IsSchnorr(code) })
+	o3 := h.call("contract.IsMultiSig", in, func() bool { return contract.IsMultiSig(code) })
+	var ty contract.ContractType
+	p, v := lib.Recover(func() { ty = contract.GetCodeType(code) })
+	o4, val := 0, int(ty)
+	if p {
+		o4, val = kindOf(v), 0
+		h.st.Fail("contract.GetCodeType:panic", fmt.Sprintf("GetCodeType panicked: %v", v), in)
+	}
+	i := h.next()
+	h.sh.Add(fmt.Sprintf("CCls %d %s %d %d %d %d %d", i, zl(code), o1, o2, o3, o4, val))
+	h.st.LogCase(h.run.Out, i, map[string]interface{}{"op": "IsStandard/IsSchnorr/IsMultiSig/GetCodeType", "code": hx(code), "out": []int{o1, o2, o3, o4}, "type": val})
+	h.st.Count(fmt.Sprintf("cls:%x", code), val != 2 || len(code) >= 35, "CCls")
+}
+
+func (h *H) classifierCases() {
+	k := h.ks[0].enc
+	k2 := h.ks[1].enc
+	// corpus: the three tail witnesses of the repaired IsMultiSig panic
+	w := msCode(0, 1, [][]byte{k, k2}, 0, 2, 0xAE)
+	w = w[:len(w)-1] // [0x51, 33,k, 33,k, 0x52]: index 70 of 70 before the fix
+	w1 := cp(w)
+	w1[len(w1)-1] = 1
+	w2 := cat(w[:69], []byte{2, 0, 2})
+	corpus := [][]byte{w, w1, w2, {}, {33}, stdCode(k), schCode(k)}
+	var codes [][]byte
+	codes = append(codes, corpus...)
+	// every accept shape of IsMultiSig (3 m-encodings x 3 n-encodings x 1..3 keys), all neighbours
+	for ms := 0; ms < 3; ms++ {
+		for ns := 0; ns < 3; ns++ {
+			for n := 1; n <= 3; n++ {
+				keys := [][]byte{k, k2, h.ks[2].enc}[:n]
+				good := msCode(ms, 1, keys, ns, n, 0xAE)
+				if n == 3 && !h.run.Thorough() {
+					codes = append(codes, good, cp(good[:len(good)-1]), cp(good[:len(good)-2]))
+					continue
+				}
+				codes = append(codes, h.neighbours(good)...)
+				// all prefixes from length 30 (the truncation sweep)
+				if n == 1 || (n == 2 && (ms == ns || h.run.Thorough())) {
+					for l := 34; l < len(good); l++ {
+						codes = append(codes, cp(good[:l]))
+					}
+				}
+			}
+		}
+	}
+	codes = append(codes, h.neighbours(stdCode(k))...)
+	codes = append(codes, h.neighbours(schCode(k))...)
+	// int16 boundaries: m = 0, 1024, 1025, negative (2,0xff,0xff)
+	for _, m := range []int{0, 255, 1024, 1025, 0x7fff, 0xffff} {
+		codes = append(codes, msCode(2, m, [][]byte{k, k2}, 2, 2, 0xAE), msCode(2, 1, [][]byte{k, k2}, 2, m, 0xAE))
+	}
+	for i := 0; i < h.run.N(60, 6000); i++ {
+		c := h.randomCode()
+		if h.rng.Chance(40) {
+			nb := h.neighbours(c)
+			c = nb[h.rng.Intn(len(nb))]
+		}
+		codes = append(codes, c)
+	}
+	for _, c := range codes {
+		h.classify(c)
+	}
+	h.st.Sample(map[string]interface{}{"op": "IsMultiSig", "code": hx(w), "out": "reject (panicked before the fix)"})
+}
+
+// ---------------------------------------------------------------- auxpow
+
+func expectedIndexRef(nonce uint32, chainID int, hh int) (int, bool) { // independent: exact arithmetic
+	m := big.NewInt(1 << 32)
+	r := new(big.Int).SetUint64(uint64(nonce))
+	r.Mul(r, big.NewInt(1103515245)).Add(r, big.NewInt(12345)).Mod(r, m)
+	r.Add(r, new(big.Int).Mod(big.NewInt(int64(chainID)), m)).Mod(r, m)
+	r.Mul(r, big.NewInt(1103515245)).Add(r, big.NewInt(12345)).Mod(r, m)
+	if hh < 0 || hh >= 32 {
+		return 0, false
+	}
+	return int(new(big.Int).Mod(r, new(big.Int).Lsh(big.NewInt(1), uint(hh))).Int64()), true
+}
+
+func (h *H) expectedIndexCases() {
+	type t struct {
+		nonce uint32
+		chain int
+		hh    int
+	}
+	cs := []t{{5, 1224, 32}, {0, 1224, 32}, {7, 1224, 33}, {7, 1224, 64}, {7, 1224, -1}, {7, 1224, 1 << 32}, {7, 1224, 31}, {7, 1224, 0}, {0xffffffff, -1, 5}}
+	for hh := -2; hh <= 42; hh++ {
+		cs = append(cs, t{uint32(h.rng.U64()), 1224, hh})
+	}
+	for i := 0; i < h.run.N(100, 5000); i++ {
+		cs = append(cs, t{uint32(h.rng.U64()), int(int32(h.rng.U64())) * h.rng.Intn(3), h.rng.Range(-3, 45)})
+	}
+	for _, c := range cs {
+		var val int
+		in := map[string]interface{}{"nonce": c.nonce, "chainID": c.chain, "h": c.hh}
+		p, v := lib.Recover(func() { val = auxpow.GetExpectedIndex(c.nonce, c.chain, c.hh) })
+		out := 0
+		if p {
+			out, val = kindOf(v), 0
+			h.st.Fail("auxpow.GetExpectedIndex:panic", fmt.Sprintf("GetExpectedIndex panicked: %v", v), in)
+		} else if ref, ok := expectedIndexRef(c.nonce, c.chain, c.hh); ok && ref != val {
+			h.st.Fail("auxpow.GetExpectedIndex:value", "index differs from rand mod 2^h in exact arithmetic", in)
+		}
+		i := h.next()
+		h.sh.Add(fmt.Sprintf("CExp %d %d %s %s %d %s", i, c.nonce, lib.CoqZi(int64(c.chain)), lib.CoqZi(int64(c.hh)), out, lib.CoqZi(int64(val))))
+		in["out"], in["val"] = out, val
+		h.st.LogCase(h.run.Out, i, in)
+		h.st.Count(fmt.Sprintf("exp:%d:%d:%d", c.nonce, c.chain, c.hh), c.hh >= 0, "CExp")
+	}
+}
+
+func hz(u common.Uint256) string { return new(big.Int).SetBytes(u[:]).String() }
+
+type htable struct {
+	rows []string
+	seen map[string]bool
+}
+
+// foldRef is an independent replay of the merkle branch fold; it records the
+// hash triples it used (the oracle table handed to the model).
+func (t *htable) foldRef(hash common.Uint256, branch []common.Uint256, index int) common.Uint256 {
+	if index == -1 {
+		return common.Uint256{}
+	}
+	idx := big.NewInt(int64(index))
+	for _, it := range branch {
+		l, r := hash, it
+		if idx.Bit(0) == 1 {
+			l, r = it, hash
+		}
+		out := common.Uint256(common.Sha256D(append(append([]byte{}, l[:]...), r[:]...)))
+		key := hz(l) + "," + hz(r)
+		if t.seen == nil {
+			t.seen = map[string]bool{}
+		}
+		if !t.seen[key] {
+			t.seen[key] = true
+			t.rows = append(t.rows, fmt.Sprintf("(%s, %s, %s)", hz(l), hz(r), hz(out)))
+		}
+		hash = out
+		idx.Rsh(idx, 1)
+	}
+	return hash
+}
+
+func (h *H) randHash() common.Uint256 {
+	var u common.Uint256
+	copy(u[:], h.rng.Bytes(32))
+	return u
+}
+
+func hashList(hs []common.Uint256) string {
+	xs := make([]string, len(hs))
+	for i, x := range hs {
+		xs[i] = hz(x)
+	}
+	return lib.CoqList(xs)
+}
+
+func (h *H) merkleRootCases() {
+	for l := 0; l <= 40; l++ {
+		reps := 1
+		if l <= 6 {
+			reps = h.run.N(3, 40)
+		}
+		for r := 0; r < reps; r++ {
+			var br []common.Uint256
+			for i := 0; i < l; i++ {
+				br = append(br, h.randHash())
+			}
+			index := int(uint32(h.rng.U64()))
+			switch h.rng.Intn(6) {
+			case 0:
+				index = -1
+			case 1:
+				index = h.rng.Intn(1 << uint(l%20+1))
+			case 2:
+				index = -int(h.rng.Intn(1000)) - 2
+			}
+			hash := h.randHash()
+			var t htable
+			ref := t.foldRef(hash, br, index)
+			var got common.Uint256
+			in := map[string]interface{}{"len": l, "index": index}
+			p, v := lib.Recover(func() { got = auxpow.GetMerkleRoot(hash, br, index) })
+			if p {
+				h.st.Fail("auxpow.GetMerkleRoot:panic", fmt.Sprintf("GetMerkleRoot panicked: %v", v), in)
+				continue
+			}
+			if got != ref {
+				h.st.Fail("auxpow.GetMerkleRoot:value", "root differs from the independent fold", in)
+			}
+			i := h.next()
+			h.sh.Add(fmt.Sprintf("CRoot %d %s %s %s %s %s", i, lib.CoqList(t.rows), hz(hash), hashList(br), lib.CoqZi(int64(index)), hz(got)))
+			h.st.LogCase(h.run.Out, i, in)
+			h.st.Count(fmt.Sprintf("root:%d:%d", l, index&0xff), l > 0 && index != -1, "CRoot")
+		}
+	}
+}
+
+type auxSpec struct {
+	branch    int
+	nonce     uint32
+	sizeDelta int  // added to the correct size
+	idxDelta  int  // added to the expected index
+	noTxIn    bool
+	cut       int  // bytes removed from the end of the script (after size+nonce and suffix)
+	suffix    int  // random bytes after the nonce
+	prefix    int  // random bytes before the header
+	dupHeader bool // second header in the suffix
+	cbBranch  int
+	badRoot   bool
+	nibble    bool // shift the commitment by half a byte
+	note      string
+}
+
+func (h *H) auxCase(s auxSpec) {
+	blockHash := h.randHash()
+	rev, _ := common.Uint256FromBytes(common.BytesReverse(blockHash.Bytes()))
+	var t htable
+	var br []common.Uint256
+	for i := 0; i < s.branch; i++ {
+		br = append(br, h.randHash())
+	}
+	auxIndex := 0
+	if ref, ok := expectedIndexRef(s.nonce, auxpow.AuxPowChainID, s.branch); ok {
+		auxIndex = ref + s.idxDelta
+	} else {
+		auxIndex = int(h.rng.U64()&0xffff) + s.idxDelta
+	}
+	if auxIndex < 0 {
+		auxIndex = 1
+	}
+	root := t.foldRef(*rev, br, auxIndex)
+	size := uint32(0)
+	if s.branch < 32 {
+		size = uint32(1) << uint(s.branch)
+	}
+	size += uint32(s.sizeDelta)
+	le := func(x uint32) []byte { return []byte{byte(x), byte(x >> 8), byte(x >> 16), byte(x >> 24)} }
+	commit := cat([]byte{0xfa, 0xbe, 'm', 'm'}, common.BytesReverse(root.Bytes()), le(size), le(s.nonce))
+	if s.nibble { // shift by one nibble: 0x?f ab e6 d6 d. ... keeps the hex pattern at an odd offset
+		sh := make([]byte, len(commit)+1)
+		for i, b := range commit {
+			sh[i] |= b >> 4
+			sh[i+1] |= b << 4
+		}
+		commit = sh
+	}
+	pre := h.rng.Bytes(s.prefix)
+	for i := range pre { // keep the header pattern out of the random parts
+		pre[i] &= 0x7f
+	}
+	suf := h.rng.Bytes(s.suffix)
+	for i := range suf {
+		suf[i] &= 0x7f
+	}
+	if s.dupHeader {
+		suf = cat(suf, []byte{0xfa, 0xbe, 'm', 'm'})
+	}
+	script := cat(pre, commit, suf)
+	if s.cut > len(script) {
+		s.cut = len(script)
+	}
+	script = cp(script[:len(script)-s.cut])
+
+	ap := auxpow.AuxPow{AuxMerkleBranch: br, AuxMerkleIndex: auxIndex}
+	var ins []*auxpow.BtcTxIn
+	if !s.noTxIn {
+		ins = append(ins, &auxpow.BtcTxIn{SignatureScript: script, Sequence: 0xffffffff})
+		if h.rng.Chance(20) {
+			ins = append(ins, &auxpow.BtcTxIn{SignatureScript: h.rng.Bytes(5)})
+		}
+	}
+	ap.ParCoinbaseTx = *auxpow.NewBtcTx(ins, nil)
+	for i := 0; i < s.cbBranch; i++ {
+		ap.ParCoinBaseMerkle = append(ap.ParCoinBaseMerkle, h.randHash())
+	}
+	ap.ParMerkleIndex = h.rng.Intn(1 << uint(s.cbBranch+1))
+	cbHash := common.Uint256(ap.ParCoinbaseTx.Hash())
+	hdrRoot := t.foldRef(cbHash, ap.ParCoinBaseMerkle, ap.ParMerkleIndex)
+	cbRoot := hdrRoot
+	if s.badRoot {
+		hdrRoot[3] ^= 1
+	}
+	ap.ParBlockHeader.MerkleRoot = hdrRoot
+
+	// the object as a peer would deliver it: through Serialize / Deserialize
+	in := map[string]interface{}{"note": s.note, "branch": s.branch, "nonce": s.nonce, "script": hx(script), "txin": len(ins), "auxindex": auxIndex}
+	out := h.call("auxpow.AuxPow.Check", in, func() bool {
+		var dec auxpow.AuxPow
+		buf := new(bytes.Buffer)
+		if err := ap.Serialize(buf); err != nil {
+			panic("serialize: " + err.Error())
+		}
+		if err := dec.Deserialize(buf); err != nil {
+			panic("deserialize: " + err.Error())
+		}
+		return dec.Check(&blockHash, auxpow.AuxPowChainID)
+	})
+	var scripts [][]byte
+	for _, x := range ins {
+		scripts = append(scripts, x.SignatureScript)
+	}
+	i := h.next()
+	if s.branch+s.cbBranch <= 5 {
+		h.sh.Add(fmt.Sprintf("CAux %d %s %s %s %d %s %s %s %d %s %d %d", i, lib.CoqList(t.rows), hz(cbHash), hashList(ap.ParCoinBaseMerkle),
+			ap.ParMerkleIndex, hz(hdrRoot), hz(*rev), hashList(br), auxIndex, zll(scripts), auxpow.AuxPowChainID, out))
+	} else {
+		h.sh.Add(fmt.Sprintf("CAuxC %d %s %s %s %d %d %s %d %d", i, hz(cbRoot), hz(hdrRoot), hz(root), s.branch, auxIndex, zll(scripts), auxpow.AuxPowChainID, out))
+	}
+	in["out"] = out
+	h.st.LogCase(h.run.Out, i, in)
+	h.st.Count(fmt.Sprintf("aux:%d:%d:%d:%d:%v:%d:%v:%v:%v", s.branch, s.sizeDelta, s.idxDelta, s.cut, s.noTxIn, s.suffix, s.dupHeader, s.badRoot, s.nibble),
+		out == 0 || !s.badRoot, "CAux")
+	if s.note == "accept" && s.branch < 32 && out != 0 {
+		h.st.Extra["aux_accept_shape_rejected"] = in
+	}
+}
+
+func (h *H) auxCases() {
+	// corpus: the witnesses of the repaired panics
+	h.auxCase(auxSpec{noTxIn: true, note: "no parent coinbase input (index 0 of 0 before the fix)"})
+	h.auxCase(auxSpec{branch: 0, nonce: 9, cut: 4, note: "size without nonce (slice [:44] of 40 before the fix)"})
+	h.auxCase(auxSpec{branch: 32, nonce: 9, note: "32-hash branch, size 0 (divide by zero before the fix)"})
+	h.auxCase(auxSpec{branch: 3, nonce: 77, suffix: 3, note: "accept"})
+	for l := 0; l <= 40; l++ { // branch lengths 0..40, accept shape and one-off neighbours
+		h.auxCase(auxSpec{branch: l, nonce: uint32(h.rng.U64()), suffix: h.rng.Intn(4), prefix: h.rng.Intn(6), cbBranch: h.rng.Intn(3), note: "accept"})
+		if l <= 1 || (l >= 31 && l <= 33) || (h.run.Thorough() && (l <= 8 || l >= 30)) {
+			for cut := 1; cut <= 9; cut++ {
+				h.auxCase(auxSpec{branch: l, nonce: uint32(h.rng.U64()), cut: cut, prefix: h.rng.Intn(3), note: "truncated"})
+			}
+			h.auxCase(auxSpec{branch: l, nonce: uint32(h.rng.U64()), sizeDelta: 1, note: "size+1"})
+			h.auxCase(auxSpec{branch: l, nonce: uint32(h.rng.U64()), idxDelta: 1, note: "index+1"})
+			h.auxCase(auxSpec{branch: l, nonce: uint32(h.rng.U64()), noTxIn: true, note: "no txin"})
+			h.auxCase(auxSpec{branch: l, nonce: uint32(h.rng.U64()), nibble: true, suffix: h.rng.Intn(2), note: "nibble-shifted"})
+			h.auxCase(auxSpec{branch: l, nonce: uint32(h.rng.U64()), nibble: true, cut: 1 + h.rng.Intn(6), note: "nibble-shifted truncated"})
+		}
+	}
+	for i := 0; i < h.run.N(30, 3000); i++ {
+		s := auxSpec{branch: h.rng.Intn(8), nonce: uint32(h.rng.U64()), suffix: h.rng.Intn(6), prefix: h.rng.Intn(8), cbBranch: h.rng.Intn(4), note: "random"}
+		if h.rng.Chance(15) {
+			s.branch = h.rng.Range(28, 40)
+		}
+		switch h.rng.Intn(9) {
+		case 0:
+			s.cut = 1 + h.rng.Intn(12)
+		case 1:
+			s.dupHeader = true
+		case 2:
+			s.badRoot = true
+		case 3:
+			s.sizeDelta = h.rng.Intn(3) - 1
+		case 4:
+			s.idxDelta = h.rng.Intn(3) - 1
+		case 5:
+			s.noTxIn = true
+		case 6:
+			s.nibble = true
+			s.cut = h.rng.Intn(8)
+		}
+		h.auxCase(s)
+	}
 }
 
 func main() {
-	k := bytes.Repeat([]byte{7}, 33)
-	code := append([]byte{0x51, 33}, k...)
-	code = append(code, 33)
-	code = append(code, k...)
-	code = append(code, 0x52)
-	try("IsMultiSig default tail", func() { contract.IsMultiSig(code) })
-	c1 := append([]byte{}, code...)
-	c1[len(c1)-1] = 1
-	try("IsMultiSig case1 tail (n!=..)", func() { contract.IsMultiSig(c1) })
-	// case 2 tail: [0x51, key, key, 2, 0, 2] -> i += 2 -> i == len
-	c2 := append(append([]byte{}, code[:69]...), 2, 0, 2)
-	try("IsMultiSig case2 tail", func() { contract.IsMultiSig(c2) })
-	try("GetExpectedIndex h=32", func() { auxpow.GetExpectedIndex(5, 1224, 32) })
+	run := lib.ParseArgs()
+	elaenv.InitLog(run.Out)
+	h := &H{run: run, rng: lib.NewRng(run.Seed)}
+	h.st = lib.NewStats("C03", "byte strings built around every accept shape (standard / schnorr / multisig with each operand encoding; multisig and cross-chain programs with real P-256 keys and signatures; merged-mining proofs with aux branch lengths 0..40; coinbases with 0..4 outputs in each reward regime; signer index lists) then truncated by 1..4, extended by one element, patched at the boundaries, plus random bytes; corpus = witnesses of the repaired panics. nontrivial = reaches past the first length test (or accepts); distinct by canonical input")
+	h.sh = &lib.Shards{Dir: run.Out, Imports: "From ELA Require Import lib.C03_GoSem model.C03_Script model.C03_Validate corr.C03_corr.",
+		CaseType: "C03_corr.case", Mismatch: "C03_corr.mismatches", Scope: "Z", PerShard: 110}
+	h.makeKeys(8)
 
-	// AuxPow with no parent coinbase inputs
-	ap := auxpow.AuxPow{}
-	ap.ParCoinbaseTx = *auxpow.NewBtcTx(nil, nil)
-	ap.ParBlockHeader.MerkleRoot = ap.ParCoinbaseTx.Hash()
-	var h common.Uint256
-	try("AuxPow.Check no TxIn", func() { ap.Check(&h, auxpow.AuxPowChainID) })
+	h.classifierCases()
+	h.expectedIndexCases()
+	h.merkleRootCases()
+	h.auxCases()
+	h.programCases()
+	h.txCases()
 
-	// AuxPow with script = header || root || size(4) and no nonce
-	mk := func(tail []byte, branch int) auxpow.AuxPow {
-		ap := auxpow.AuxPow{}
-		for i := 0; i < branch; i++ {
-			ap.AuxMerkleBranch = append(ap.AuxMerkleBranch, common.Uint256{byte(i)})
-		}
-		hr, _ := common.Uint256FromBytes(common.BytesReverse(h.Bytes()))
-		root := auxpow.GetMerkleRoot(*hr, ap.AuxMerkleBranch, 0)
-		script := append([]byte{0xfa, 0xbe, 'm', 'm'}, common.BytesReverse(root.Bytes())...)
-		script = append(script, tail...)
-		sc := make([]byte, len(script))
-		copy(sc, script)
-		ap.ParCoinbaseTx = *auxpow.NewBtcTx([]*auxpow.BtcTxIn{{SignatureScript: sc}}, nil)
-		ap.ParBlockHeader.MerkleRoot = ap.ParCoinbaseTx.Hash()
-		return ap
-	}
-	a2 := mk([]byte{1, 0, 0, 0}, 0)
-	try("AuxPow.Check size but no nonce", func() { fmt.Println(a2.Check(&h, auxpow.AuxPowChainID)) })
-	a3 := mk([]byte{0, 0, 0, 0, 9, 9, 9, 9}, 32)
-	try("AuxPow.Check 32 branch size 0", func() { fmt.Println(a3.Check(&h, auxpow.AuxPowChainID)) })
-
-	// RunPrograms: schnorr-shaped code under cross-chain prefix with empty parameter
-	sch := append([]byte{0x51, 33}, k...)
-	ph := common.Uint168{0x4B}
-	try("RunPrograms schnorr short param (X)", func() {
-		fmt.Println(blockchain.RunPrograms([]byte("data"), []common.Uint168{ph}, []*program.Program{{Code: sch, Parameter: []byte{}}}))
-	})
-	// RunPrograms: multisig prefix, 1-byte code
-	short := []byte{0x51}
-	pm := common.ToProgramHash(0x12, short)
-	try("RunPrograms multisig short code", func() {
-		fmt.Println(blockchain.RunPrograms([]byte("data"), []common.Uint168{*pm}, []*program.Program{{Code: short, Parameter: []byte{}}}))
-	})
-	try("RunPrograms crosschain short code", func() {
-		fmt.Println(blockchain.RunPrograms([]byte("data"), []common.Uint168{ph}, []*program.Program{{Code: short, Parameter: []byte{}}}))
-	})
-	try("CheckMultiSigSignatures empty code", func() {
-		fmt.Println(crypto.CheckMultiSigSignatures(program.Program{}, nil))
-	})
-	// standard prefix with the IsMultiSig witness as code
-	ps := common.ToProgramHash(0x21, code)
-	try("RunPrograms std prefix, multisig witness", func() {
-		fmt.Println(blockchain.RunPrograms([]byte("data"), []common.Uint168{*ps}, []*program.Program{{Code: code, Parameter: []byte{}}}))
-	})
+	h.st.Traces = h.st.Evals
+	h.sh.Flush()
+	h.st.Write(run.Out)
+	_ = blockchain.RunPrograms
+	_ = program.Program{}
 }
